@@ -39,6 +39,8 @@ func genTransfer(rt *rapid.T, o vfGenOpts, maxWrites int, maxChunks int, faultIn
 		}
 		maxSz[side] = lim
 	}
+	// stream identifiers are 16-bit: mostly small, sometimes around 2^15 or just below 2^16
+	sidBase := rapid.SampledFrom([]int{0, 0, 0, 0, 32760, 65520}).Draw(rt, "sidbase")
 	nW := rapid.IntRange(1, maxWrites).Draw(rt, "nwrites")
 	chunks := 0
 	for i := 0; i < nW; i++ {
@@ -54,7 +56,7 @@ func genTransfer(rt *rapid.T, o vfGenOpts, maxWrites int, maxChunks int, faultIn
 			nfr = 1
 		}
 		chunks += nfr
-		sid := rapid.IntRange(0, nStr[side]-1).Draw(rt, "wsid")*2 + side
+		sid := sidBase + rapid.IntRange(0, nStr[side]-1).Draw(rt, "wsid")*2 + side
 		a := vfAct{AtMs: rapid.IntRange(0, 1500).Draw(rt, "wat"), Side: side, Kind: "write", SID: sid, Size: size,
 			PPI: rapid.SampledFrom(vfPPIs).Draw(rt, "wppi")}
 		if a.PPI == 50 && rapid.Bool().Draw(rt, "nodcep") {
